@@ -1,4 +1,238 @@
 ----------------------------- MODULE JsNumFmtAsIs -----------------------------
-EXTENDS JsNumFmt
-ExplainFmt(r, x, e) == ""
+(* The engine's number formatting / parsing / Math built-ins AS THEY ARE          *)
+(* (vm.py _make_number_method, context.py _global_parseint / _global_parsefloat /  *)
+(* _create_math_object / stringify_fn, values.py to_number / to_string), one       *)
+(* named deviation per call site (DESIGN 2.3).  Where the code computes digits in  *)
+(* binary floating point the as-is rule is a bounded one (same shape, value        *)
+(* within 2^-38 relative), everywhere else it predicts the exact observation.      *)
+EXTENDS JsNumFmt, JsOpsAsIs
+
+C18Devs == {"Dev_NumToStrPy", "Dev_JsonNumberPy", "Dev_NumberMethodsFloat", "Dev_StrToNumPy", "Dev_ParseIntPy", "Dev_ParseFloatPy",
+            "Dev_MathHost", "Dev_MathMissing", "Dev_IntRep"}
+AllOn == {"Dev_StrToNumPy", "Dev_NumToStrPy", "Dev_IntRep"}
+HVal(v) == [o |-> "value", v |-> v]
+HHost(t) == [o |-> "host", type |-> t]
+HThrow(c) == [o |-> "throw", cls |-> c]
+HApprox(sg) == [o |-> "approx", s |-> sg]
+\* prediction p against the observation act = [o, v, cls, type]
+HMatches(act, p) ==
+  CASE p.o = "value" -> act.o = "value" /\ (IF p.v.k = "hostval" THEN act.v.k = "hostval" /\ act.v.t = p.v.t ELSE SameVal(act.v, p.v))
+    [] p.o = "host" -> act.o = "host" /\ act.type = p.type
+    [] p.o = "throw" -> act.o = "throw" /\ act.cls = p.cls
+    [] p.o = "approx" -> act.o = "value" /\ act.v.k = "num" /\ ~WIsNaN(act.v.w) /\ (p.s = 2 \/ WSign(act.v.w) = p.s)
+    [] p.o = "approx-or-host" -> (act.o = "host" /\ act.type = p.type) \/ (act.o = "value" /\ act.v.k = "num" /\ ~WIsNaN(act.v.w))
+    [] OTHER -> FALSE
+
+\* ---- host text of a number -----------------------------------------------------------------------
+PyInfNan(d) == CASE d.c = "nan" -> <<110, 97, 110>> [] d.c = "inf" -> (IF d.s = 1 THEN <<45>> ELSE <<>>) \o <<105, 110, 102>>
+\* repr(float): like PyReprLayout, but integral values keep ".0", zero is 0.0 / -0.0, inf / nan in lower case
+PyFloatRepr(d) ==
+  CASE d.c \in {"nan", "inf"} -> PyInfNan(d)
+    [] d.c = "zero" -> (IF d.s = 1 THEN <<45>> ELSE <<>>) \o <<48, 46, 48>>
+    [] OTHER -> LET sh == DShortest(DAbs(d))
+                    body == PyReprLayout(CvDigitUnits(sh.s), sh.k, sh.n)
+                    plain == \A ji_k \in 1..Len(body) : CvIsDigit(body[ji_k])
+                IN (IF d.s = 1 THEN <<45>> ELSE <<>>) \o body \o (IF plain THEN <<46, 48>> ELSE <<>>)
+PyIntText(x) == (IF x.s = 1 THEN <<45>> ELSE <<>>) \o (IF x.n = <<>> THEN <<48>> ELSE CvDigitUnits(x.n))
+\* json.dumps of a number
+PyJsonNumber(x) ==
+  IF x.r = "i" THEN PyIntText(x)
+  ELSE CASE x.d.c = "nan" -> <<78, 97, 78>>
+         [] x.d.c = "inf" -> (IF x.d.s = 1 THEN <<45>> ELSE <<>>) \o CvInfinityText
+         [] OTHER -> PyFloatRepr(x.d)
+\* Number.prototype.toString() / toPrecision() without argument: str(int(n)) for integral floats, else str(n)
+PyNumberStr(x) ==
+  IF x.r = "i" THEN PyIntText(x)
+  ELSE IF x.d.c \in {"nan", "inf"} THEN PyInfNan(x.d)
+  ELSE IF DIsInteger(x.d) THEN (IF x.d.s = 1 /\ x.d.c # "zero" THEN <<45>> ELSE <<>>) \o FRadixDigits(DTruncMag(x.d), 10)
+  ELSE PyFloatRepr(x.d)
+
+\* ---- vm.py _make_number_method --------------------------------------------------------------------
+\* int(to_number(arg)): ValueError for NaN, OverflowError for an infinity
+ArgIntErr(v) == LET d == ToNumberD(v) IN IF d.c = "nan" THEN "ValueError" ELSE IF d.c = "inf" THEN "OverflowError" ELSE ""
+AsIsToString(x, a) ==
+  IF a = <<>> THEN HVal(VStr(PyNumberStr(x)))
+  ELSE IF ArgIntErr(a[1]) # "" THEN HHost(ArgIntErr(a[1]))
+  ELSE LET radix == FToInt(a[1]).i
+           d == AToDRaw(x)
+       IN IF radix < 2 \/ radix > 36 THEN HThrow("RangeError")
+          ELSE IF radix = 10 THEN HVal(VStr(PyNumberStr(x)))
+          ELSE IF d.c = "nan" THEN HHost("ValueError")
+          ELSE IF d.c = "inf" THEN HHost("OverflowError")
+          ELSE IF ~DIsInteger(d) THEN HVal(VStr((IF d.s = 1 THEN <<45>> ELSE <<>>) \o PyFloatRepr(DAbs(d))))   \* "just use base 10"
+          ELSE HVal(VStr((IF d.s = 1 /\ d.c # "zero" THEN <<45>> ELSE <<>>) \o FRadixDigits(DTruncMag(d), radix)))
+\* shape of a digits text: [-] int digits [. fraction digits] [e +- digits]
+ShapeOf(text) ==
+  LET body == IF text # <<>> /\ text[1] = 45 THEN Tail(text) ELSE text
+      epos == {ji_k \in 1..Len(body) : body[ji_k] = 101}
+      ei == IF epos = {} THEN Len(body) + 1 ELSE CHOOSE ji_k \in epos : TRUE
+      mant == SubSeq(body, 1, ei - 1)
+      dots == {ji_k \in 1..Len(mant) : mant[ji_k] = 46}
+      di == IF dots = {} THEN Len(mant) + 1 ELSE CHOOSE ji_k \in dots : TRUE
+      ds == SelectSeq(mant, LAMBDA c : c # 46)
+      ex == SubSeq(body, ei + 1, Len(body))
+      nz == {ji_k \in 1..Len(ds) : ds[ji_k] # 48}
+  IN [ok |-> Cardinality(epos) <= 1 /\ Cardinality(dots) <= 1 /\ FAllDigits(ds)
+               /\ (epos = {} \/ (Len(ex) >= 2 /\ ex[1] \in {43, 45} /\ FAllDigits(Tail(ex)))),
+      neg |-> text # <<>> /\ text[1] = 45, exp |-> epos # {}, frac |-> Len(mant) - di + (IF dots = {} THEN 1 ELSE 0),
+      ndig |-> Len(ds), sig |-> IF nz = {} THEN Len(ds) ELSE Len(ds) + 1 - (CHOOSE ji_k \in nz : \A ji_j \in nz : ji_k <= ji_j)]
+\* |value(t1) - value(t2)| <= 2^-38 |value(t2)|  (t1 may overflow to Infinity when t2 is just below 2^1024)
+CloseTexts(t1, t2) ==
+  LET v1 == StrToD(t1)  v2 == StrToD(t2) IN
+  IF v1.c = "inf" /\ v2.c = "fin" THEN v1.s = v2.s /\ v2.e = DEMax
+  ELSE IF v1.c # "fin" \/ v2.c # "fin" THEN v1.c = v2.c
+  ELSE LET df == DSub(v1, v2) IN df.c = "zero" \/ (df.c = "fin" /\ DMagCmp(DFin(0, df.m, df.e + 38), v2) <= 0)
+\* one unit in the last mantissa digit of a digits text, as text
+UnitText(text) ==
+  LET body == IF text # <<>> /\ text[1] = 45 THEN Tail(text) ELSE text
+      epos == {ji_k \in 1..Len(body) : body[ji_k] = 101}
+      ei == IF epos = {} THEN Len(body) + 1 ELSE CHOOSE ji_k \in epos : TRUE
+      dg == {ji_k \in 1..(ei - 1) : CvIsDigit(body[ji_k])}
+      last == CHOOSE ji_k \in dg : \A ji_j \in dg : ji_k >= ji_j
+  IN [ji_k \in 1..Len(body) |-> IF ji_k \in dg THEN (IF ji_k = last THEN 49 ELSE 48) ELSE body[ji_k]]
+\* within one unit of the last printed digit (double rounding in js_round), or within 2^-38 relative
+NearTexts(act, exp) ==
+  \/ CloseTexts(act, exp)
+  \/ LET v1 == StrToD(act)  v2 == StrToD(exp)  un == StrToD(UnitText(act))
+     IN v1.c \in {"fin", "zero"} /\ v2.c \in {"fin", "zero"} /\ un.c = "fin"
+        /\ LET df == DSub(v1, v2)
+               slack == IF v2.c = "fin" THEN DAdd(un, DFin(0, v2.m, v2.e - 45)) ELSE un       \* the three texts are read with rounding
+           IN df.c = "zero" \/ DMagCmp(df, slack) <= 0
+\* the digits are computed with js_round / log10 / 10**exp in binary floating point: well formed, nearly the right value;
+\* toFixed keeps the number of fraction digits, toExponential(f) the number of digits; toPrecision may be one digit
+\* short or switch notation when log10 misjudges the exponent next to a power of ten
+FloatDigitsOK(m, a, expText, actText) ==
+  LET se == ShapeOf(expText)  sa == ShapeOf(actText) IN
+  /\ sa.ok /\ sa.ndig >= 1 /\ NearTexts(actText, expText)
+  /\ CASE m = "toFixed" -> sa.frac = se.frac /\ ~sa.exp
+       [] m = "toExponential" /\ a # <<>> -> sa.exp /\ sa.ndig = se.ndig
+       [] m = "toExponential" -> sa.exp /\ sa.ndig <= 17                       \* '%.15g' of the mantissa
+       [] m = "toPrecision" -> sa.sig \in {se.sig - 1, se.sig, se.sig + 1}
+TinyOrHuge(d) == d.c = "fin" /\ (DDecExp(d) <= -323)
+AsIsNumberMethodOK(m, x, a, e, act) ==
+  LET d == AToDRaw(x)
+      argerr == a # <<>> /\ ArgIntErr(a[1]) # ""
+      hosterr == act.o = "host" /\ act.type \in {"ValueError", "OverflowError", "ZeroDivisionError"}
+  IN \/ (m = "toString" /\ HMatches(act, AsIsToString(x, a)))
+     \/ (m = "toPrecision" /\ (a = <<>> \/ a[1].k = "undef") /\ HMatches(act, HVal(VStr(PyNumberStr(x)))))
+     \/ (m # "toString" /\ hosterr /\ (argerr \/ d.c \in {"nan", "inf"} \/ TinyOrHuge(d)))
+     \* toFixed multiplies by 10^digits in floating point: Infinity reaches math.floor
+     \/ (m = "toFixed" /\ hosterr /\ d.c = "fin" /\ a # <<>> /\ DDecExp(d) + FToInt(a[1]).i >= 308)
+     \* the digit-count check comes before the finite check: (Infinity).toPrecision(101) is a RangeError
+     \/ (m # "toString" /\ act.o = "throw" /\ act.cls = "RangeError" /\ e.o = "value" /\ d.c \in {"nan", "inf"}
+            /\ a # <<>> /\ (FToInt(a[1]).i < (IF m = "toPrecision" THEN 1 ELSE 0) \/ FToInt(a[1]).i > 100))
+     \/ (m # "toString" /\ e.o = "value" /\ act.o = "value" /\ act.v.k = "str" /\ d.c \in {"fin", "zero"}
+            /\ \/ FloatDigitsOK(m, a, e.v.u, act.v.u)
+               \/ (d.c = "zero" /\ d.s = 1 /\ act.v.u = <<45>> \o e.v.u)                  \* -0 keeps its sign
+               \/ (m = "toFixed" /\ DGe1e21(d) /\ ShapeOf(act.v.u).ok /\ CloseTexts(act.v.u, e.v.u)))   \* no 1e21 switch to ToString
+
+\* ---- context.py _global_parseint / _global_parsefloat ------------------------------------------------
+PyParseInt(a) ==
+  LET s0 == PyStrip(AToStringU(AIn(FArg(a, 1), TRUE, AllOn), AllOn))
+      rerr == IF Len(a) > 1 THEN ArgIntErr(a[2]) ELSE ""
+      r0 == IF Len(a) > 1 THEN FToInt(a[2]).i ELSE 10
+      r1 == IF r0 = 0 THEN 10 ELSE r0
+      neg == s0 # <<>> /\ s0[1] = 45
+      s1 == IF s0 # <<>> /\ s0[1] \in {43, 45} THEN Tail(s0) ELSE s0
+      hasPrefix == Len(s1) >= 2 /\ s1[1] = 48 /\ s1[2] \in {120, 88}
+      radix == IF hasPrefix THEN 16 ELSE r1                                   \* the prefix is honoured whatever the radix
+      s2 == IF hasPrefix THEN SubSeq(s1, 3, Len(s1)) ELSE s1
+      bad == {ji_k \in 1..Len(s2) : FAlnumVal(s2[ji_k]) >= radix}
+      zend == IF bad = {} THEN Len(s2) ELSE (CHOOSE ji_k \in bad : \A ji_j \in bad : ji_k <= ji_j) - 1
+      z == SubSeq(s2, 1, zend)
+  IN IF rerr # "" THEN HHost(rerr)
+     ELSE IF s0 = <<>> \/ z = <<>> THEN HVal(NumV(DNaN))
+     ELSE IF radix > 32768 THEN [o |-> "opaque"]                                 \* digits weighed by a huge radix: not modelled
+     ELSE HVal(AOut(AI(IF neg THEN 1 ELSE 0, BnFromDigits([ji_k \in 1..Len(z) |-> FAlnumVal(z[ji_k])], radix))))
+\* the scanning loop of _global_parsefloat: index of the last unit it consumes
+PyFloatScanEnd(s) ==
+  LET start == IF s # <<>> /\ s[1] \in {43, 45} THEN 1 ELSE 0
+      step(acc, k) ==
+        IF acc.stop \/ k <= start \/ k <= acc.skip THEN acc
+        ELSE IF CvIsDigit(s[k]) THEN [acc EXCEPT !.i = k]
+        ELSE IF s[k] = 46 /\ ~acc.dot THEN [acc EXCEPT !.i = k, !.dot = TRUE]
+        ELSE IF s[k] \in {101, 69} /\ ~acc.ex
+             THEN IF k + 1 <= Len(s) /\ s[k + 1] \in {43, 45} THEN [acc EXCEPT !.i = k + 1, !.ex = TRUE, !.skip = k + 1]
+                  ELSE [acc EXCEPT !.i = k, !.ex = TRUE]
+        ELSE [acc EXCEPT !.stop = TRUE]
+  IN BnFold(step, [i |-> start, dot |-> FALSE, ex |-> FALSE, stop |-> FALSE, skip |-> 0], BnIdx(Len(s))).i
+PyParseFloat(a) ==
+  LET s == PyStrip(AToStringU(AIn(FArg(a, 1), TRUE, AllOn), AllOn))
+      pre(t) == Len(s) >= Len(t) /\ SubSeq(s, 1, Len(t)) = t
+  IN IF s = <<>> THEN HVal(NumV(DNaN))
+     ELSE IF pre(CvInfinityText) \/ pre(<<43>> \o CvInfinityText) THEN HVal(NumV(DInf(0)))
+     ELSE IF pre(<<45>> \o CvInfinityText) THEN HVal(NumV(DInf(1)))
+     ELSE LET iend == PyFloatScanEnd(s)
+              lit == SubSeq(s, 1, iend)
+              hasSign == lit # <<>> /\ lit[1] \in {43, 45}
+              body == IF hasSign THEN Tail(lit) ELSE lit
+              pr == IF body = <<>> THEN CvNaN ELSE CvDecLit(IF lit[1] = 45 THEN 1 ELSE 0, body)
+          IN IF iend = 0 THEN HVal(NumV(DNaN)) ELSE HVal(NumV(CvToD(pr)))
+
+\* ---- context.py _create_math_object --------------------------------------------------------------------
+PyIntOfD(d) == IF d.c = "zero" THEN DZero(0) ELSE d                        \* a host integer has no -0
+PyToInt(d, f(_)) == IF d.c = "nan" THEN HHost("ValueError") ELSE IF d.c = "inf" THEN HHost("OverflowError") ELSE HVal(NumV(PyIntOfD(f(d))))
+PyLess(x, y) == x.c # "nan" /\ y.c # "nan" /\ DCmp(x, y) < 0
+PyMin(ds) == IF ds = <<>> THEN DInf(0) ELSE BnFold(LAMBDA best, it : IF PyLess(it, best) THEN it ELSE best, ds[1], Tail(ds))
+PyMax(ds) == IF ds = <<>> THEN DInf(1) ELSE BnFold(LAMBDA best, it : IF PyLess(best, it) THEN it ELSE best, ds[1], Tail(ds))
+PyMathPow(x, y) ==
+  IF x.c = "nan" THEN (IF y.c = "zero" THEN HVal(NumV(DOne)) ELSE HVal(NumV(DNaN)))
+  ELSE IF y.c = "nan" THEN (IF x = DOne THEN HVal(NumV(DOne)) ELSE HVal(NumV(DNaN)))
+  ELSE IF y.c = "zero" THEN HVal(NumV(DOne))
+  ELSE IF x.c = "inf" THEN HVal(DPow(x, y))
+  ELSE IF y.c = "inf" THEN (IF x.c = "fin" /\ DMagCmpOne(x) = 0 THEN HVal(NumV(DOne))
+                            ELSE IF x.c = "zero" /\ y.s = 1 THEN HHost("ValueError") ELSE HVal(DPow(x, y)))
+  ELSE IF x.c = "zero" THEN (IF y.s = 1 THEN HHost("ValueError") ELSE HVal(DPow(x, y)))
+  ELSE IF x.s = 1 /\ ~DIsInteger(y) THEN HHost("ValueError")
+  ELSE LET rf == DPow(x, y)
+       IN IF IsApprox(rf) THEN [o |-> "approx-or-host", type |-> "OverflowError"]
+          ELSE IF WIsInf(rf.w) THEN HHost("OverflowError") ELSE HVal(rf)
+Exp709 == DOfDecimal(0, BnOfInt(7097), -1)                              \* 709.7 < ln(MAX) = 709.78...
+MissingMath == {"sinh", "cosh", "tanh", "asinh", "acosh", "atanh"}
+AsIsMath(fn, a) ==
+  LET ds == [ji_k \in 1..Len(a) |-> ToNumberD(a[ji_k])]
+      x == IF Len(a) >= 1 THEN ds[1] ELSE DNaN
+      y == IF Len(a) >= 2 THEN ds[2] ELSE DNaN
+      ref == MathFn(fn, a)
+      half == DFin(0, DP52, -53)
+  IN CASE fn \in MissingMath -> HThrow("TypeError")
+       [] fn = "floor" -> PyToInt(x, DFloor)
+       [] fn = "ceil" -> PyToInt(x, DCeil)
+       [] fn = "trunc" -> PyToInt(x, DTrunc)
+       [] fn = "round" -> PyToInt(DAdd(x, half), DFloor)                     \* math.floor(x + 0.5) in double arithmetic
+       [] fn = "sign" -> IF x.c = "zero" THEN HVal(NumV(DZero(0))) ELSE ref
+       [] fn = "min" -> HVal(NumV(PyMin(ds)))
+       [] fn = "max" -> HVal(NumV(PyMax(ds)))
+       [] fn = "pow" -> PyMathPow(x, y)
+       [] fn \in {"sin", "cos", "tan"} -> IF x.c = "inf" THEN HHost("ValueError") ELSE ref
+       [] fn \in {"log2", "log10"} -> IF x.c = "zero" THEN HVal(NumV(DNaN)) ELSE ref
+       [] fn = "log1p" -> IF x = DNeg(DOne) THEN HVal(NumV(DNaN)) ELSE ref
+       [] fn \in {"exp", "expm1"} -> IF x.c = "fin" /\ x.s = 0 /\ DCmp(x, Exp709) > 0 THEN [o |-> "approx-or-host", type |-> "OverflowError"] ELSE ref
+       [] fn = "cbrt" -> IF x.c = "zero" THEN HVal(NumV(DZero(0))) ELSE ref
+       [] fn = "fround" -> IF x.c = "fin" /\ DRoundF32(x).c = "inf" THEN HHost("OverflowError") ELSE ref
+       [] fn = "clz32" -> IF Len(a) >= 1 /\ x.c = "nan" THEN HHost("ValueError") ELSE IF x.c = "inf" THEN HHost("OverflowError") ELSE ref
+       [] fn = "imul" -> IF (Len(a) >= 1 /\ x.c = "nan") \/ (x.c # "inf" /\ Len(a) >= 2 /\ y.c = "nan") THEN HHost("ValueError")
+                         ELSE IF (Len(a) >= 1 /\ x.c = "inf") \/ (Len(a) >= 2 /\ y.c = "inf") THEN HHost("OverflowError") ELSE ref
+       [] OTHER -> ref
+
+\* ---- explanation of a mismatch ---------------------------------------------------------------------------
+ExplainFmt(r, x, e) ==
+  LET xe == AIn(r.x, r.intrep, AllOn)
+      act == r.out
+  IN CASE r.g = "fmt" /\ r.m \in {"implicit", "String"} ->
+            IF HMatches(act, HVal(VStr(ANumToText(xe, AllOn)))) THEN "Dev_NumToStrPy" ELSE ""
+       [] r.g = "fmt" /\ r.m = "json" -> IF HMatches(act, HVal(VStr(PyJsonNumber(xe)))) THEN "Dev_JsonNumberPy" ELSE ""
+       [] r.g = "fmt" -> IF AsIsNumberMethodOK(r.m, xe, r.a, e, act) THEN "Dev_NumberMethodsFloat" ELSE ""
+       [] r.g = "parse" /\ r.m \in {"Number", "plus", "minus0", "times1"} ->
+            LET try(dv) == LET n == AToNumber(AIn(r.a[1], r.intrep, dv), dv)
+                               v == CASE r.m = "minus0" -> ASub(n, ANorm(AI(0, <<>>), dv), dv)
+                                      [] r.m = "times1" -> AMul(n, ANorm(AI(0, BnOne), dv))
+                                      [] OTHER -> n
+                           IN HMatches(act, HVal(AOut(v)))
+            IN IF try({"Dev_StrToNumPy"}) THEN "Dev_StrToNumPy" ELSE IF try({"Dev_IntRep"}) THEN "Dev_IntRep"
+               ELSE IF try({"Dev_StrToNumPy", "Dev_IntRep"}) THEN "Dev_StrToNumPy" ELSE ""
+       [] r.g = "parse" /\ r.m = "parseInt" -> LET p == PyParseInt(r.a) IN IF p.o = "opaque" \/ HMatches(act, p) THEN "Dev_ParseIntPy" ELSE ""
+       [] r.g = "parse" /\ r.m = "parseFloat" -> IF HMatches(act, PyParseFloat(r.a)) THEN "Dev_ParseFloatPy" ELSE ""
+       [] r.g = "math" -> LET p == AsIsMath(r.m, r.a)
+                          IN IF ~HMatches(act, p) THEN "" ELSE IF r.m \in MissingMath THEN "Dev_MathMissing" ELSE "Dev_MathHost"
 =============================================================================
